@@ -6,7 +6,10 @@ cd "$(dirname "$0")"
 export GOFLAGS=-mod=mod GOPROXY=off GOSUMDB=off GOTOOLCHAIN=local TZ=UTC
 ID="$1"; TIER="${2:-quick}"; shift; shift || true
 mkdir -p bin
-if ! go build -o bin/vsim ./cmd/vsim 2> bin/vsim.build.log; then
-  echo "vsim: driver build failed (infrastructure, not a verdict)"; cat bin/vsim.build.log; exit 2
+# (built under a private name and moved into place: several checks may run at once)
+if ! go build -o bin/vsim.$$ ./cmd/vsim 2> bin/vsim.build.$$.log; then
+  echo "vsim: driver build failed (infrastructure, not a verdict)"; cat bin/vsim.build.$$.log; rm -f bin/vsim.$$ bin/vsim.build.$$.log; exit 2
 fi
+rm -f bin/vsim.build.$$.log
+mv -f bin/vsim.$$ bin/vsim
 exec bin/vsim check "$ID" --tier "$TIER" "$@"
